@@ -15,7 +15,7 @@ from common import run_driver
 RULE = ('real OntologyStore with injected fake release / remote services. (1) sequential histories (all of length <= 2 over the op '
         'alphabet, random ones up to length 6) over {load(type, release|latest) x remote outcome in {ok, unknown release, tags raise, '
         'fetch raises, read raises, write fails after k in {0, 1, len-1} bytes}, load_minimal_hpo/load_hpo convenience forms, clear(type), '
-        'clear(), resolve_store_path(latest), a foreign file dropped at the top level / inside a type directory} x {absolute, relative} store dir: after EVERY op the cache files with their bytes, the number '
+        'clear(), resolve_store_path(latest), a foreign file (a hidden one at the top level, plain ones inside a type directory)} x {absolute, relative} store dir x directory names with glob metacharacters / blanks / a leading dot: after EVERY op the cache files with their bytes, the number '
         'of other entries, the fetch log and the result (loaded == loading the remote bytes directly / failed) must equal the Lean '
         'model\'s world; (2) crash points: each load re-run in a forked child that _exit()s at the j-th I/O boundary (audit events open/'
         'mkdir/rename/remove/rmtree/mkstemp, os.stat, fake remote fetch/read, write proxy) for every j: surviving tree must satisfy the '
@@ -301,7 +301,9 @@ def model_ops(ops):
 
 def run_history(ctx, ops, relative, stream):
     parent = tempfile.mkdtemp(prefix='verif-c07-')
-    abs_dir = os.path.join(parent, 'store')
+    # the store directory's NAME is legal but awkward for every other history: glob metacharacters, blanks, a leading dot
+    dname = ['store', 'cache[0-9]', 'store', 'hpo-toolkit [v1]', 'store', 'a*b?c', 'store', '.hidden-store'][(len(ops) + sum(len(str(o)) for o in ops)) % 8]
+    abs_dir = os.path.join(parent, dname)
     os.mkdir(abs_dir)
     cwd = os.getcwd()
     req = {'op': 'store.run', 'remote': [[ty, rel_index(ty, r), list(REMOTE[(ty, r)])] for ty, r in all_keys()],
@@ -313,7 +315,7 @@ def run_history(ctx, ops, relative, stream):
     try:
         if relative:
             os.chdir(parent)
-        store, rem = make_store('store' if relative else abs_dir, plan_holder)
+        store, rem = make_store(dname if relative else abs_dir, plan_holder)
         Instr.root, Instr.on_boundary = abs_dir, None
         for i, (op, m) in enumerate(zip(ops, model)):
             plan_holder.clear()
@@ -331,7 +333,7 @@ def run_history(ctx, ops, relative, stream):
                     # somebody else drops a file below the store dir: at the top level, or inside a type directory
                     d = abs_dir if op[1] is None else os.path.join(abs_dir, {'HPO': 'HP', 'MAxO': 'MAXO', 'MONDO': 'MONDO'}[op[1]])
                     os.makedirs(d, exist_ok=True)
-                    with _real_open(os.path.join(d, f'stray-{op[2]}.txt'), 'wb') as fh:
+                    with _real_open(os.path.join(d, '.DS_Store' if op[2] == 1 else f'stray-{op[2]}.txt'), 'wb') as fh:
                         fh.write(b'stray')
                     res = 'ok'
                 else:
@@ -750,6 +752,49 @@ def github_layer(ctx, rng, thorough):
         gh.urlopen = real
 
 
+def probe_store():
+    """a release whose labels are not ASCII goes through the store (fetch, cache, load) and is loaded again from the cache"""
+    from hpotk.store import OntologyStore, OntologyReleaseService, RemoteOntologyService, OntologyType
+    doc = json.dumps({'graphs': [{'id': 'hp', 'nodes': [{'id': P + 'HP_0000001', 'lbl': 'Tout é ß 病 😀', 'type': 'CLASS'},
+                                                        {'id': P + 'HP_0000002', 'lbl': 'Anomalie ü', 'type': 'CLASS'}],
+                                  'edges': [{'sub': P + 'HP_0000002', 'pred': 'is_a', 'obj': P + 'HP_0000001'}],
+                                  'meta': {'version': P + 'hp/releases/2024-01-01/hp.json'}}]}, ensure_ascii=False).encode('utf-8')
+
+    class Rel(OntologyReleaseService):
+        def fetch_tags(self, ontology_type):
+            return iter(['v2024-01-01'])
+
+    class Rem(RemoteOntologyService):
+        def fetch_ontology(self, ontology_type, release):
+            return io.BytesIO(doc)
+    d = tempfile.mkdtemp(prefix='verif-c07-env-')
+    out = {}
+    try:
+        store = OntologyStore(os.path.join(d, 'store'), Rel(), Rem())
+        for k in ('first load', 'cache hit'):
+            try:
+                o = store.load_minimal_hpo()
+                out[k] = sorted([t.identifier.value, [ord(ch) for ch in t.name]] for t in o.terms)
+            except Exception as e:  # noqa
+                out[k] = f'raises {type(e).__name__}'
+        cache, other = tree(os.path.join(d, 'store'))
+        out['cache is the served bytes'] = cache == {('HPO', 'v2024-01-01'): doc} and other == 0
+    finally:
+        shutil.rmtree(d, ignore_errors=True)
+    return out
+
+
+def environment_probe(ctx):
+    import common
+    here = probe_store()
+    there = common.run_in_child('c07', 'probe_store', common.HOSTILE_ENV)
+    ctx.case(['environment-probe'], True, 'store under an ASCII locale / UTF-8 mode off (child interpreter)', sample={'this process': str(here)[:200]})
+    want = {'first load': here['first load'], 'cache hit': here['first load'], 'cache is the served bytes': True}
+    if here != want or there != want:
+        ctx.violation('environment', {'case': {'kind': 'environment', 'env': common.HOSTILE_ENV}, 'impl': {'this process': here, 'hostile environment': there},
+                                      'theorem': 'Hpv.Props.C07.loaded_is_remote (what is loaded equals loading the served bytes, whatever the locale)'})
+
+
 def configured_store(ctx):
     """`configure_ontology_store`: the platform default directory ($HOME/.hpo-toolkit, created on demand), an existing directory,
     a missing directory (ValueError); the store it returns caches and clears like any other"""
@@ -807,6 +852,7 @@ def run(ctx):
     rng = ctx.rng
     thorough = ctx.tier == 'thorough'
     install()
+    environment_probe(ctx)
     configured_store(ctx)
     github_layer(ctx, rng, thorough)
     alpha = op_alphabet()
@@ -844,5 +890,7 @@ def replay(ctx, data):
         github_layer(ctx, ctx.rng, False)
     elif c['kind'] == 'configure':
         configured_store(ctx)
+    elif c['kind'] == 'environment':
+        environment_probe(ctx)
     else:
         run_schedule(ctx, c['jobs'], c['schedule'], 'replay')
